@@ -429,6 +429,11 @@ class World:
             raise AnchorMissing(f'function not found (or ambiguous): {xid}')
         return f
 
+    def fns_x_of(self, nid):
+        """all functions sharing a loose id (several impls of one trait for one type)"""
+        self.fn_index()
+        return list(self._fn_index.get(nid, []))
+
     def all_fns(self, crates=None):
         for c in (crates or self.crates()):
             for f in self.hir(c)['fns']:
